@@ -196,6 +196,21 @@ func npCSSNumber(r *gen.Rand, allowExp bool) string {
 	return sb.String()
 }
 
+// npAllZero: a text with at least one digit whose digits are all '0' (and nothing but sign, dot, digits)
+func npAllZero(t string) bool {
+	n := 0
+	for i := 0; i < len(t); i++ {
+		switch c := t[i]; {
+		case c == '0':
+			n++
+		case c == '.' || ((c == '+' || c == '-') && i == 0):
+		default:
+			return false
+		}
+	}
+	return n > 0
+}
+
 func npCSSGarbage(r *gen.Rand) string {
 	n := r.Intn(9)
 	b := make([]byte, n)
@@ -296,6 +311,13 @@ func init() {
 				}
 				if strings.ContainsAny(t, "eE") {
 					e.stat("mangle-exponent")
+					if strings.IndexByte(t, '.') >= 0 && strings.HasSuffix(t, "0") {
+						// the guarded loop: a fraction, an exponent, and a trailing '0' that must stay
+						e.stat("mangle-exponent-trailing-zero")
+						if ok {
+							e.stat("mangle-exponent-trailing-zero-changed")
+						}
+					}
 				}
 				e.emit(fmt.Sprintf("numprint\tcss\tmangle\t%s", hexBytes([]byte(t))), fmt.Sprintf("%s %v", hexBytes([]byte(out)), ok))
 			case 9, 10: // shiftDot
@@ -323,6 +345,13 @@ func init() {
 				if ok && (out == "" || out == "+" || out == "-") {
 					e.stat("shift-out-empty")
 				}
+				if ok && (out == "0" || out == "+0" || out == "-0") && npAllZero(t) {
+					// the branch `dot == 0` inside `dot >= len(text)`: every digit was a zero and was removed
+					e.stat("shift-all-zero→0")
+				}
+				if ok && npAllZero(t) {
+					e.stat("shift-all-zero-input")
+				}
 				e.emit(fmt.Sprintf("numprint\tcss\tshift\t%s\t%d", hexBytes([]byte(t)), k), fmt.Sprintf("%s %v", hexBytes([]byte(out)), ok))
 			default: // mangleDimension
 				var t string
@@ -341,6 +370,9 @@ func init() {
 				e.stat("dim")
 				if ok {
 					e.stat("dim-to-" + unit)
+					if npAllZero(t) {
+						e.stat("dim-all-zero-to-" + unit)
+					}
 				}
 				e.emit(fmt.Sprintf("numprint\tcss\tdim\t%s\t%s", hexBytes([]byte(t)), hexRunes(u)), fmt.Sprintf("%s %s %v", hexBytes([]byte(v)), hexBytes([]byte(unit)), ok))
 			}
